@@ -102,3 +102,524 @@ Proof. destruct dt; reflexivity. Qed.
 
 Lemma need_diff d vs : need (MDiff d vs) = S (S (vneed vs)).
 Proof. reflexivity. Qed.
+
+(* ---------------------------------------------------------------- *)
+(* shapes of the printed token lists *)
+
+Lemma sep_by_one {A} (sep : list A) x : sep_by sep [x] = x.
+Proof. reflexivity. Qed.
+
+Lemma sep_by_more {A} (sep : list A) x y l : sep_by sep (x :: y :: l) = x ++ sep ++ sep_by sep (y :: l).
+Proof. reflexivity. Qed.
+
+(* the first token of a term *)
+Definition starter (k : ttok) : bool :=
+  match k with KDoc _ | KIdent _ | KStr _ | KRegex _ | KCoref _ | KLBrk | KLAngle | KLDiff => true | _ => false end.
+
+Lemma fmt_term_head t : exists k r, fmt_term t = k :: r /\ starter k = true.
+Proof. destruct t as [[d|] s|[d|] s|[d|] s|[d|] s|[d|] fs|[d|] vs e dt|[d|] vs]; cbn [fmt_term doc_toks app]; eexists; eexists; split; reflexivity. Qed.
+
+Lemma fmt_conj_head c : c <> [] -> exists k r, fmt_conj c = k :: r /\ starter k = true.
+Proof.
+  destruct c as [|t [|t2 c]]; intros H; [contradiction H; reflexivity | |].
+  - unfold fmt_conj. cbn [map sep_by]. apply fmt_term_head.
+  - unfold fmt_conj. cbn [map]. rewrite sep_by_more. destruct (fmt_term_head t) as [k [r [E S]]]. rewrite E.
+    eexists; eexists; split; [reflexivity | exact S].
+Qed.
+
+Lemma starter_hd p (Hp : forall k, starter k = true -> p k = false) ts X :
+  (exists k r, ts = k :: r /\ starter k = true) -> hd_is p (ts ++ X) = false.
+Proof. intros [k [r [E S]]]. subst. cbn. apply Hp. exact S. Qed.
+
+Lemma st_dot k : starter k = true -> k_dot k = false. Proof. destruct k; cbn; congruence. Qed.
+Lemma st_comma k : starter k = true -> k_comma k = false. Proof. destruct k; cbn; congruence. Qed.
+Lemma st_amp k : starter k = true -> k_amp k = false. Proof. destruct k; cbn; congruence. Qed.
+Lemma st_rbrk k : starter k = true -> k_rbrk k = false. Proof. destruct k; cbn; congruence. Qed.
+Lemma st_ell k : starter k = true -> k_ell k = false. Proof. destruct k; cbn; congruence. Qed.
+Lemma st_brk brk k : starter k = true -> is_brk brk k = false. Proof. destruct brk, k; cbn; congruence. Qed.
+
+(* ---------------------------------------------------------------- *)
+(* the round trip, term by term *)
+
+Definition Pt (t : tterm) : Prop :=
+  wf_term t -> forall f rest, need t <= f -> p_term f (fmt_term t ++ rest) = Some (t, rest).
+
+Lemma conj_ok c : c <> [] -> Forall Pt c -> Forall wf_term c ->
+  forall f rest, cneed c <= f -> hd_is k_amp rest = false -> p_conj f (fmt_conj c ++ rest) = Some (c, rest).
+Proof.
+  induction c as [|t c IH]; intros Hne HP Hwf f rest Hf Hrest; [contradiction Hne; reflexivity|].
+  inversion HP as [|? ? Ht HP']; subst. inversion Hwf as [|? ? Wt Hwf']; subst.
+  destruct f as [|f]; [cbn [cneed] in Hf; lia|]. cbn [cneed] in Hf.
+  destruct c as [|t2 c'].
+  - unfold fmt_conj. cbn [map sep_by]. cbn [p_conj]. rewrite (Ht Wt f rest) by lia. rewrite Hrest. reflexivity.
+  - unfold fmt_conj in *. cbn [map]. rewrite sep_by_more. rewrite <- !app_assoc. cbn [p_conj].
+    rewrite (Ht Wt f) by lia. cbn [app hd_is k_amp tl].
+    fold (fmt_conj (t2 :: c')). unfold fmt_conj. cbn [map] in IH.
+    rewrite IH; [reflexivity | discriminate | exact HP' | exact Hwf' | lia | exact Hrest].
+Qed.
+
+(* feature paths *)
+Definition dots (p : list str) : list ttok := flat_map (fun b => [KDot; KIdent b]) p.
+
+Lemma path_toks_shape a p : path_toks (a :: p) = KIdent a :: dots p.
+Proof.
+  revert a. induction p as [|b p IH]; intros a; [reflexivity|].
+  unfold path_toks. cbn [map]. rewrite sep_by_more. cbn [app]. f_equal. cbn [dots flat_map app]. f_equal.
+  specialize (IH b). unfold path_toks in IH. cbn [map] in IH. rewrite IH. reflexivity.
+Qed.
+
+Lemma p_path_dots p : forall acc X, Forall (fun a => ascii_upper a = a) p -> hd_is k_dot X = false ->
+  p_path acc (dots p ++ X) = (acc ++ p, X).
+Proof.
+  induction p as [|b p IH]; intros acc X Hu HX.
+  - cbn [dots flat_map app]. rewrite app_nil_r. destruct X as [|[] X']; try reflexivity.
+    + cbn in HX. discriminate.
+  - inversion Hu as [|? ? Hb Hu']; subst. cbn [dots flat_map app p_path]. rewrite Hb.
+    change (flat_map (fun b0 : str => [KDot; KIdent b0]) p) with (dots p).
+    rewrite IH by assumption. rewrite <- app_assoc. reflexivity.
+Qed.
+
+Definition ftoks (pc : list str * list tterm) : list ttok := path_toks (fst pc) ++ fmt_conj (snd pc).
+Definition feat_ok (pc : list str * list tterm) : Prop := upper_path (fst pc) /\ snd pc <> [] /\ Forall wf_term (snd pc).
+
+Lemma feats_ok feats : feats <> [] -> Forall feat_ok feats -> Forall (fun pc => Forall Pt (snd pc)) feats ->
+  forall f rest, fneed feats <= f ->
+  p_feats f (sep_by [KComma] (map ftoks feats) ++ KRBrk :: rest) = Some (feats, rest).
+Proof.
+  induction feats as [|[p c] feats IH]; intros Hne Hok HP f rest Hf; [contradiction Hne; reflexivity|].
+  inversion Hok as [|? ? [[Hp Hup] [Hc Hw]] Hok']; subst. inversion HP as [|? ? HPc HP']; subst.
+  cbn [fst snd] in *. destruct p as [|a p]; [contradiction Hp; reflexivity|].
+  inversion Hup as [|? ? Ha Hup']; subst.
+  destruct f as [|f]; [cbn [fneed] in Hf; lia|]. cbn [fneed snd] in Hf.
+  assert (Hstep : forall TAIL, hd_is k_amp TAIL = false ->
+            p_feats (S f) ((ftoks (a :: p, c)) ++ TAIL) =
+            (if hd_is k_comma TAIL then
+               match p_feats f (tl TAIL) with Some (fs, r3) => Some ((a :: p, c) :: fs, r3) | None => None end
+             else if hd_is k_rbrk TAIL then Some ([(a :: p, c)], tl TAIL) else None)).
+  { intros TAIL HT. unfold ftoks. cbn [fst snd]. rewrite path_toks_shape. rewrite <- app_assoc. cbn [app p_feats].
+    rewrite Ha.
+    rewrite p_path_dots; [| exact Hup' | apply (starter_hd k_dot st_dot); apply fmt_conj_head; exact Hc].
+    rewrite (starter_hd k_dot st_dot) by (apply fmt_conj_head; exact Hc).
+    rewrite (conj_ok c Hc HPc Hw f TAIL) by (lia || exact HT). reflexivity. }
+  destruct feats as [|pc2 feats'].
+  - cbn [map sep_by]. rewrite Hstep by reflexivity. reflexivity.
+  - cbn [map]. rewrite sep_by_more. rewrite <- !app_assoc. rewrite Hstep by reflexivity. cbn [app hd_is k_comma tl].
+    cbn [map] in IH. rewrite IH; [reflexivity | discriminate | exact Hok' | exact HP' | cbn [fneed] in *; lia].
+Qed.
+
+(* ---------------------------------------------------------------- *)
+(* lists *)
+
+Definition vtoks (vs : list (list tterm)) : list ttok := sep_by [KComma] (map fmt_conj vs).
+
+Definition ltail (e : cons_end) (dt : option (list tterm)) : list ttok :=
+  match e, dt with
+  | COpen, _ => [KComma; KEllipsis]
+  | CClosed, Some d => KDot :: fmt_conj d
+  | CClosed, None => []
+  end.
+
+Definition lend (e : cons_end) (dt : option (list tterm)) : option (list tterm) :=
+  match e with COpen => None | CClosed => dt end.
+
+Definition dneed (dt : option (list tterm)) : nat := match dt with Some d => S (cneed d) | None => 0 end.
+
+Definition val_ok (c : list tterm) : Prop := c <> [] /\ Forall wf_term c.
+
+Lemma brk_self brk : (brk = KRDiff \/ brk = KRAngle) -> is_brk brk brk = true.
+Proof. intros [-> | ->]; reflexivity. Qed.
+
+Lemma brk_not_special brk : (brk = KRDiff \/ brk = KRAngle) ->
+  k_amp brk = false /\ k_dot brk = false /\ k_comma brk = false /\ k_ell brk = false /\ is_brk brk KEllipsis = false.
+Proof. intros [-> | ->]; repeat split; reflexivity. Qed.
+
+Lemma list_values_ok brk vs : (brk = KRDiff \/ brk = KRAngle) -> vs <> [] ->
+  Forall val_ok vs -> Forall (Forall Pt) vs ->
+  forall e dt f rest,
+    (match dt with Some d => e = CClosed /\ d <> [] /\ Forall wf_term d /\ Forall Pt d | None => True end) ->
+    vneed vs + dneed (lend e dt) + 1 <= f ->
+    p_list f brk (vtoks vs ++ ltail e dt ++ brk :: rest) = Some (vs, e, lend e dt, rest).
+Proof.
+  intros Hb. destruct (brk_not_special brk Hb) as [Ba [Bd [Bc [Be Bel]]]]. pose proof (brk_self brk Hb) as Bs.
+  induction vs as [|v vs IH]; intros Hne Hok HP e dt f rest Hdt Hf; [contradiction Hne; reflexivity|].
+  inversion Hok as [|? ? [Hv Hw] Hok']; subst. inversion HP as [|? ? HPv HP']; subst.
+  destruct f as [|f]; [lia|]. cbn [vneed] in Hf.
+  assert (Hhead : forall X, hd_is (is_brk brk) (fmt_conj v ++ X) = false /\ hd_is k_ell (fmt_conj v ++ X) = false).
+  { intros X. split; [apply (starter_hd _ (st_brk brk)) | apply (starter_hd _ st_ell)]; apply fmt_conj_head; exact Hv. }
+  destruct vs as [|v2 vs'].
+  - (* last value *)
+    unfold vtoks. cbn [map sep_by]. cbn [p_list].
+    destruct (Hhead (ltail e dt ++ brk :: rest)) as [H1 H2]. rewrite H1, H2.
+    assert (Hamp : hd_is k_amp (ltail e dt ++ brk :: rest) = false).
+    { destruct e; [destruct dt|]; cbn; try reflexivity. exact Ba. }
+    rewrite (conj_ok v Hv HPv Hw f _) by (lia || exact Hamp).
+    destruct e; [destruct dt as [d|]|].
+    + (* dotted *)
+      destruct Hdt as [_ [Hd [Hwd HPd]]]. cbn [ltail app hd_is k_dot tl lend].
+      rewrite (conj_ok d Hd HPd Hwd f (brk :: rest)) by (cbn [lend dneed vneed] in Hf; try lia; cbn; exact Ba).
+      cbn [hd_is tl]. rewrite Bs. reflexivity.
+    + cbn [ltail app hd_is lend]. rewrite Bd, Bc, Bs. reflexivity.
+    + cbn [ltail app hd_is k_dot k_comma tl lend]. rewrite Bel.
+      destruct f as [|f]; [cbn [lend dneed vneed] in Hf; lia|].
+      cbn [p_list hd_is k_ell tl]. rewrite Bel. cbn [k_ell]. rewrite Bs. reflexivity.
+  - unfold vtoks in *. cbn [map]. rewrite sep_by_more. rewrite <- !app_assoc. cbn [p_list].
+    rewrite (proj1 (Hhead _)), (proj2 (Hhead _)).
+    rewrite (conj_ok v Hv HPv Hw f _) by (lia || reflexivity).
+    cbn [app hd_is k_dot k_comma tl].
+    inversion Hok' as [|? ? [Hv2 _] _]; subst.
+    assert (H3 : hd_is (is_brk brk) (sep_by [KComma] (map fmt_conj (v2 :: vs')) ++ ltail e dt ++ brk :: rest) = false).
+    { destruct vs' as [|v3 vs'']; cbn [map].
+      - rewrite sep_by_one. apply (starter_hd _ (st_brk brk)). apply fmt_conj_head. exact Hv2.
+      - rewrite sep_by_more. rewrite <- app_assoc. apply (starter_hd _ (st_brk brk)). apply fmt_conj_head. exact Hv2. }
+    cbn [map] in H3. rewrite H3. cbn [map] in IH.
+    rewrite (IH ltac:(discriminate) Hok' HP' e dt f rest Hdt) by (cbn [vneed] in *; lia). reflexivity.
+Qed.
+
+(* ---------------------------------------------------------------- *)
+(* every term *)
+
+Lemma p_term_doc f d ts : p_term (S f) (doc_toks d ++ ts) =
+  match ts with
+  | KDoc d2 :: _ => match d with Some _ => None | None => p_term (S f) ts end
+  | _ => p_term (S f) ts
+  end \/ True.
+Proof. right. exact I. Qed.
+
+Theorem term_ok : forall t, Pt t.
+Proof.
+  apply tterm_ind2; unfold Pt.
+  - intros d s _ f rest Hf. destruct f as [|f]; [cbn in Hf; lia|]. destruct d; reflexivity.
+  - intros d s _ f rest Hf. destruct f as [|f]; [cbn in Hf; lia|]. destruct d; reflexivity.
+  - intros d s _ f rest Hf. destruct f as [|f]; [cbn in Hf; lia|]. destruct d; reflexivity.
+  - intros d s _ f rest Hf. destruct f as [|f]; [cbn in Hf; lia|]. destruct d; reflexivity.
+  - (* feature structures *)
+    intros d feats HF W f rest Hf. inversion W as [| | | |? ? Hfe| | |]; subst. rewrite need_avm in Hf.
+    destruct f as [|f]; [lia|].
+    assert (Hcore : p_term (S f) (doc_toks d ++ KLBrk :: (sep_by [KComma] (map ftoks feats) ++ KRBrk :: rest))
+                    = Some (MAvm d feats, rest)).
+    { destruct feats as [|pc feats'].
+      - destruct d; reflexivity.
+      - assert (Hh : hd_is k_rbrk (sep_by [KComma] (map ftoks (pc :: feats')) ++ KRBrk :: rest) = false).
+        { inversion Hfe as [|? ? [[Hp _] _] _]; subst. destruct pc as [[|a p] c]; [contradiction Hp; reflexivity|].
+          destruct feats'; cbn [map]; [rewrite sep_by_one | rewrite sep_by_more; rewrite <- app_assoc];
+            unfold ftoks; cbn [fst]; rewrite path_toks_shape; reflexivity. }
+        assert (Hp := feats_ok (pc :: feats') ltac:(discriminate) Hfe HF f rest ltac:(lia)).
+        destruct d; cbn [doc_toks app p_term]; rewrite Hh, Hp; reflexivity. }
+    cbn [fmt_term].
+    replace ((doc_toks d ++ KLBrk :: sep_by [KComma] (map (fun pc : list str * list tterm => path_toks (fst pc) ++ sep_by [KAmp] (map fmt_term (snd pc))) feats) ++ [KRBrk]) ++ rest)
+      with (doc_toks d ++ KLBrk :: (sep_by [KComma] (map ftoks feats) ++ KRBrk :: rest)).
+    2:{ rewrite <- app_assoc. cbn [app]. rewrite <- app_assoc. reflexivity. }
+    exact Hcore.
+  - (* cons lists *)
+    intros d vs e dt HV HD W f rest Hf. rewrite need_cons in Hf. destruct f as [|f]; [lia|].
+    assert (Hvals : Forall val_ok vs) by (inversion W; subst; assumption).
+    assert (Hshape : dt = None \/ exists c, dt = Some c /\ e = CClosed /\ vs <> [] /\ c <> [] /\ Forall wf_term c).
+    { inversion W; subst; [left; reflexivity | right; eexists; repeat split; eauto]. }
+    destruct vs as [|v vs'].
+    + (* no values *)
+      destruct Hshape as [-> | [c [_ [_ [Hne _]]]]]; [|contradiction Hne; reflexivity].
+      destruct f as [|f]; [lia|]. destruct d, e; reflexivity.
+    + assert (Hbody : forall X, (match e, dt with
+                                 | COpen, _ => vtoks (v :: vs') ++ [KComma; KEllipsis]
+                                 | CClosed, Some c => vtoks (v :: vs') ++ KDot :: fmt_conj c
+                                 | CClosed, None => vtoks (v :: vs')
+                                 end ++ [KRAngle]) ++ X = vtoks (v :: vs') ++ ltail e dt ++ KRAngle :: X).
+      { intros X. destruct e; [destruct dt|]; cbn [ltail]; rewrite <- ?app_assoc; cbn [app]; rewrite <- ?app_assoc; reflexivity. }
+      assert (Hl : p_list f KRAngle (vtoks (v :: vs') ++ ltail e dt ++ KRAngle :: rest) = Some (v :: vs', e, dt, rest)).
+      { destruct Hshape as [-> | [c [-> [-> [_ [Hc Hwc]]]]]].
+        - rewrite (list_values_ok KRAngle (v :: vs') (or_intror eq_refl) ltac:(discriminate) Hvals HV e None f rest I).
+          + destruct e; reflexivity.
+          + destruct e; cbn [lend dneed] in *; lia.
+        - rewrite (list_values_ok KRAngle (v :: vs') (or_intror eq_refl) ltac:(discriminate) Hvals HV CClosed (Some c) f rest).
+          + reflexivity.
+          + repeat split; assumption.
+          + cbn [lend dneed] in *. lia. }
+      cbn [fmt_term]. rewrite <- app_assoc. cbn [app].
+      change (sep_by [KComma] (map (fun c : list tterm => sep_by [KAmp] (map fmt_term c)) (v :: vs'))) with (vtoks (v :: vs')).
+      change (sep_by [KAmp] (map fmt_term ?c)) with (fmt_conj c) in *.
+      rewrite Hbody. destruct d; cbn [doc_toks app p_term]; rewrite Hl; reflexivity.
+  - (* diff lists *)
+    intros d vs HV W f rest Hf. rewrite need_diff in Hf. destruct f as [|f]; [lia|].
+    assert (Hvals : Forall val_ok vs) by (inversion W; subst; assumption).
+    destruct vs as [|v vs'].
+    + destruct f as [|f]; [lia|]. destruct d; reflexivity.
+    + assert (Hl : p_list f KRDiff (vtoks (v :: vs') ++ ltail CClosed None ++ KRDiff :: rest) = Some (v :: vs', CClosed, None, rest)).
+      { rewrite (list_values_ok KRDiff (v :: vs') (or_introl eq_refl) ltac:(discriminate) Hvals HV CClosed None f rest I);
+          [reflexivity | cbn [lend dneed]; lia]. }
+      cbn [ltail app] in Hl. cbn [fmt_term]. rewrite <- app_assoc. cbn [app]. rewrite <- app_assoc. cbn [app].
+      change (sep_by [KComma] (map (fun c : list tterm => sep_by [KAmp] (map fmt_term c)) (v :: vs'))) with (vtoks (v :: vs')).
+      destruct d; cbn [doc_toks app p_term]; rewrite Hl; reflexivity.
+Qed.
+
+(* ---------------------------------------------------------------- *)
+(* conjunctions of well-formed terms *)
+
+Corollary conj_all_ok c : c <> [] -> Forall wf_term c ->
+  forall f rest, cneed c <= f -> hd_is k_amp rest = false -> p_conj f (fmt_conj c ++ rest) = Some (c, rest).
+Proof.
+  intros Hne Hw. apply conj_ok; [exact Hne | | exact Hw].
+  apply Forall_forall. intros t _. apply term_ok.
+Qed.
+
+(* ---------------------------------------------------------------- *)
+(* letter sets and wild cards *)
+
+Definition plain_chars (cs : str) : Prop := Forall (fun c => is_space c = false \/ c = 32%N) cs.
+
+Lemma scan_esc cs : forall X, plain_chars cs -> scan_chars (esc_chars cs ++ 41%N :: X) = (cs, 41%N :: X).
+Proof.
+  induction cs as [|c cs IH]; intros X Hp; [reflexivity|].
+  inversion Hp as [|? ? Hc Hp']; subst. cbn [esc_chars].
+  destruct (N.eqb c 41 || N.eqb c 32 || N.eqb c 92) eqn:E.
+  - cbn [app scan_chars]. change (N.eqb 92 92) with true. cbn iota. rewrite IH by exact Hp'. reflexivity.
+  - apply orb_false_iff in E. destruct E as [E E3]. apply orb_false_iff in E. destruct E as [E1 E2].
+    cbn [app scan_chars]. rewrite E3, E1, E2. cbn [orb]. rewrite IH by exact Hp'. reflexivity.
+Qed.
+
+Lemma esc_head_not_space cs X : plain_chars cs -> cs <> [] ->
+  drop_while is_space (esc_chars cs ++ X) = esc_chars cs ++ X.
+Proof.
+  intros Hp Hne. destruct cs as [|c cs]; [contradiction Hne; reflexivity|].
+  inversion Hp as [|? ? Hc _]; subst. cbn [esc_chars].
+  destruct (N.eqb c 41 || N.eqb c 32 || N.eqb c 92) eqn:E; [reflexivity|].
+  apply orb_false_iff in E. destruct E as [E _]. apply orb_false_iff in E. destruct E as [_ E2].
+  destruct Hc as [Hc | ->]; [|discriminate E2]. cbn [app drop_while]. rewrite Hc. reflexivity.
+Qed.
+
+Lemma strip_prefix_app p X : strip_prefix p (p ++ X) = Some X.
+Proof. induction p as [|a p IH]; [reflexivity|]. cbn [app strip_prefix]. rewrite N.eqb_refl. exact IH. Qed.
+
+Lemma drop_space_nonspace c r : is_space c = false -> drop_while is_space (c :: r) = c :: r.
+Proof. intros H. cbn [drop_while]. rewrite H. reflexivity. Qed.
+
+Lemma parse_as_fmt l v cs : v <> 10%N -> cs <> [] -> plain_chars cs ->
+  parse_morph_as l (fmt_morph l v cs) = Some (l, v, cs).
+Proof.
+  intros Hv Hne Hp. assert (Ev : N.eqb v 10 = false) by (apply N.eqb_neq; exact Hv).
+  unfold parse_morph_as, fmt_morph. rewrite strip_prefix_app.
+  change (drop_while is_space ([32%N; 40%N] ++ [if l then 33%N else 63%N; v] ++ [32%N] ++ esc_chars cs ++ [41%N]))
+    with (40%N :: (if l then 33%N else 63%N) :: v :: 32%N :: esc_chars cs ++ [41%N]).
+  cbv iota beta. rewrite N.eqb_refl, N.eqb_refl, Ev. cbn [negb andb hd_space]. change (is_space 32) with true. cbv iota.
+  change (drop_while is_space (32%N :: esc_chars cs ++ [41%N])) with (drop_while is_space (esc_chars cs ++ [41%N])).
+  rewrite esc_head_not_space by assumption. rewrite scan_esc by exact Hp.
+  destruct cs; [contradiction Hne; reflexivity | reflexivity].
+Qed.
+
+Lemma parse_fmt_morph l v cs : v <> 10%N -> cs <> [] -> plain_chars cs ->
+  parse_morph (fmt_morph l v cs) = Some (l, v, cs).
+Proof.
+  intros Hv Hne Hp. unfold parse_morph.
+  assert (Hd : drop_while is_space (fmt_morph l v cs) = fmt_morph l v cs) by (destruct l; reflexivity).
+  rewrite Hd. destruct l.
+  - rewrite parse_as_fmt by assumption. reflexivity.
+  - assert (Hn : parse_morph_as true (fmt_morph false v cs) = None) by reflexivity.
+    rewrite Hn. apply parse_as_fmt; assumption.
+Qed.
+
+(* ---------------------------------------------------------------- *)
+(* affix patterns *)
+
+Lemma take_while_app_stop {A} (p : A -> bool) a x r : Forall (fun c => p c = true) a -> p x = false ->
+  take_while p (a ++ x :: r) = a.
+Proof.
+  induction a as [|c a IH]; intros Ha Hx; cbn [app take_while]; [rewrite Hx; reflexivity|].
+  inversion Ha as [|? ? Hc Ha']; subst. rewrite Hc. rewrite IH by assumption. reflexivity.
+Qed.
+
+Lemma drop_while_app_stop {A} (p : A -> bool) a x r : Forall (fun c => p c = true) a -> p x = false ->
+  drop_while p (a ++ x :: r) = x :: r.
+Proof.
+  induction a as [|c a IH]; intros Ha Hx; cbn [app drop_while]; [rewrite Hx; reflexivity|].
+  inversion Ha as [|? ? Hc Ha']; subst. rewrite Hc. apply IH; assumption.
+Qed.
+
+Definition pat_ok (p : str * str) : Prop :=
+  fst p <> [] /\ Forall (fun c => is_space c = false) (fst p) /\
+  exists b0 b', snd p = b0 :: b' /\ is_space b0 = false.
+
+Lemma split_pat_text p : pat_ok p -> split_pat (pat_text p) = Some p.
+Proof.
+  destruct p as [a b]. intros [Ha [Hns [b0 [b' [Hb Hb0]]]]]. cbn [fst snd] in *. subst b.
+  unfold split_pat, pat_text. cbn [fst snd].
+  destruct a as [|a0 a']; [contradiction Ha; reflexivity|]. inversion Hns as [|? ? Ha0 Hns']; subst.
+  assert (Hd : drop_while is_space ((a0 :: a') ++ [32%N] ++ b0 :: b') = (a0 :: a') ++ [32%N] ++ b0 :: b').
+  { cbn [app drop_while]. rewrite Ha0. reflexivity. }
+  rewrite Hd. change ((a0 :: a') ++ [32%N] ++ b0 :: b') with ((a0 :: a') ++ 32%N :: b0 :: b').
+  assert (Hall : Forall (fun c => negb (is_space c) = true) (a0 :: a')).
+  { apply Forall_forall. intros c Hc. rewrite Forall_forall in Hns. rewrite (Hns c Hc). reflexivity. }
+  rewrite (take_while_app_stop (fun c => negb (is_space c)) (a0 :: a') 32%N (b0 :: b') Hall eq_refl).
+  rewrite (drop_while_app_stop (fun c => negb (is_space c)) (a0 :: a') 32%N (b0 :: b') Hall eq_refl).
+  cbn [drop_while]. change (is_space 32) with true. cbn iota. cbn [drop_while]. rewrite Hb0. reflexivity.
+Qed.
+
+Lemma take_pats_ok ps X : Forall pat_ok ps -> hd_is (fun t => match t with KAffixPat _ => true | _ => false end) X = false ->
+  take_pats (map (fun p => KAffixPat (pat_text p)) ps ++ X) = (Some ps, X).
+Proof.
+  induction ps as [|p ps IH]; intros Hok HX.
+  - cbn [map app]. destruct X as [|[] X']; try reflexivity. cbn in HX. discriminate.
+  - inversion Hok as [|? ? Hp Hok']; subst. cbn [map app take_pats]. rewrite IH by assumption.
+    rewrite split_pat_text by exact Hp. reflexivity.
+Qed.
+
+(* ---------------------------------------------------------------- *)
+(* entities *)
+
+Definition wf_event (e : tevent) : Prop :=
+  match e with
+  | VDef _ c _ => c <> [] /\ Forall wf_term c /\ existsb is_type_term c = true
+  | VAdd _ c d => Forall wf_term c /\ (c = [] -> d <> None)
+  | VLex _ _ ps c _ => Forall pat_ok ps /\ c <> [] /\ Forall wf_term c
+  | VMorph _ v cs => v <> 10%N /\ cs <> [] /\ plain_chars cs
+  | VBegin t st => (t = ENV_TYPE /\ st = None) \/ (t = ENV_INSTANCE /\ exists s, st = Some s)
+  | _ => True
+  end.
+
+Fixpoint env_run (evs : list tevent) (envs : list str) : option (list str) :=
+  match evs with
+  | [] => Some envs
+  | VBegin t _ :: r => env_run r (t :: envs)
+  | VEnd t :: r => match envs with
+                   | cur :: envs' => if str_eqb t cur then env_run r envs' else None
+                   | [] => None
+                   end
+  | _ :: r => env_run r envs
+  end.
+
+Definition ev_conj (e : tevent) : list tterm :=
+  match e with VDef _ c _ | VAdd _ c _ | VLex _ _ _ c _ => c | _ => [] end.
+
+Fixpoint eneed (evs : list tevent) : nat :=
+  match evs with [] => 1 | e :: r => S (cneed (ev_conj e) + eneed r) end.
+
+Lemma p_def_end_ok d X : p_def_end (doc_toks d ++ KDot :: X) = Some (d, X).
+Proof. destruct d; reflexivity. Qed.
+
+Lemma def_tail_no_amp d X : hd_is k_amp (doc_toks d ++ KDot :: X) = false.
+Proof. destruct d; reflexivity. Qed.
+
+(* the second token after a docstring is never a dot *)
+Lemma fmt_term_not_doc_dot t X : is_doc_dot (fmt_term t ++ X) = false.
+Proof.
+  destruct t as [[d|] s|[d|] s|[d|] s|[d|] s|[d|] fs|[d|] vs e dt|[d|] vs]; reflexivity.
+Qed.
+
+Lemma fmt_conj_not_doc_dot c X : c <> [] -> is_doc_dot (fmt_conj c ++ X) = false.
+Proof.
+  destruct c as [|t [|t2 c]]; intros H; [contradiction H; reflexivity | |].
+  - unfold fmt_conj. cbn [map sep_by]. apply fmt_term_not_doc_dot.
+  - unfold fmt_conj. cbn [map]. rewrite sep_by_more. rewrite <- app_assoc. apply fmt_term_not_doc_dot.
+Qed.
+
+Lemma event_step e more envs f : wf_event e -> cneed (ev_conj e) <= f ->
+  p_events (S f) (fmt_event e ++ more) envs =
+  match e with
+  | VBegin t _ => option_map (cons e) (p_events f more (t :: envs))
+  | VEnd t => match envs with
+              | cur :: envs' => if str_eqb t cur then option_map (cons e) (p_events f more envs') else None
+              | [] => None
+              end
+  | _ => option_map (cons e) (p_events f more envs)
+  end.
+Proof.
+  intros W Hf. destruct e as [i c d|i c d|i a ps c d|l v cs|t st|t|s|s|s]; cbn [wf_event ev_conj] in *.
+  - (* definition *)
+    destruct W as [Hc [Hw Ht]]. cbn [fmt_event]. rewrite <- !app_assoc. cbn [app p_events].
+    unfold p_definition.
+    rewrite (starter_hd k_affix) by (first [apply fmt_conj_head; exact Hc | intros k Hk; destruct k; cbn in *; congruence]).
+    rewrite (conj_all_ok c Hc Hw f _ Hf (def_tail_no_amp d _)). rewrite Ht. rewrite p_def_end_ok. reflexivity.
+  - (* addendum *)
+    destruct W as [Hw Hd]. cbn [fmt_event]. rewrite <- !app_assoc. cbn [app p_events]. unfold p_definition.
+    destruct c as [|t0 c'].
+    + destruct d as [d|]; [|contradiction (Hd eq_refl); reflexivity]. reflexivity.
+    + rewrite fmt_conj_not_doc_dot by discriminate.
+      rewrite (conj_all_ok (t0 :: c') ltac:(discriminate) Hw f _ Hf (def_tail_no_amp d _)).
+      rewrite p_def_end_ok. reflexivity.
+  - (* lexical rule *)
+    destruct W as [Hp [Hc Hw]]. cbn [fmt_event]. rewrite <- !app_assoc. cbn [app p_events]. unfold p_definition.
+    cbn [hd_is k_affix].
+    rewrite take_pats_ok; [| exact Hp |].
+    2:{ apply (starter_hd (fun t => match t with KAffixPat _ => true | _ => false end)).
+        - intros k Hk. destruct k; cbn in *; congruence.
+        - apply fmt_conj_head. exact Hc. }
+    rewrite (conj_all_ok c Hc Hw f _ Hf (def_tail_no_amp d _)). rewrite p_def_end_ok. reflexivity.
+  - destruct W as [Hv [Hne Hp]]. cbn [fmt_event app p_events]. rewrite parse_fmt_morph by assumption. reflexivity.
+  - destruct W as [[-> ->] | [-> [s ->]]]; reflexivity.
+  - cbn [fmt_event app p_events]. destruct envs; reflexivity.
+  - reflexivity.
+  - reflexivity.
+  - reflexivity.
+Qed.
+
+(* a whole file: the events of the printed entities are the entities *)
+Theorem events_ok evs : forall envs f, Forall wf_event evs -> env_run evs envs <> None -> eneed evs <= f ->
+  p_events f (flat_map fmt_event evs) envs = Some evs.
+Proof.
+  induction evs as [|e evs IH]; intros envs f HW Hrun Hf.
+  - destruct f as [|f]; [cbn in Hf; lia|]. reflexivity.
+  - inversion HW as [|? ? We HW']; subst. cbn [eneed] in Hf. destruct f as [|f]; [lia|].
+    cbn [flat_map]. rewrite event_step by (assumption || lia).
+    destruct e; cbn [env_run] in Hrun;
+      try (rewrite IH by (assumption || lia); reflexivity).
+    destruct envs as [|cur envs']; [contradiction Hrun; reflexivity|].
+    destruct (str_eqb envtype cur); [|contradiction Hrun; reflexivity].
+    rewrite IH by (assumption || lia). reflexivity.
+Qed.
+
+(* ---------------------------------------------------------------- *)
+(* non-vacuity: a file with a definition (dotted paths, every kind of list,
+   docstrings on the definition and on a term), a docstring-only addendum, a
+   lexical rule in an instance environment and a letter set *)
+
+Definition w (l : list N) : str := l.
+Definition ex_term : tterm :=
+  MAvm None [ ([[83;89;78]; [76;79;67]]%N, [MId None [120]%N; MCoref (Some [100]%N) [49]%N]);
+              ([[65;82;71;83]]%N, [MCons None [[MId None [97]%N]; [MStr None [98]%N; MRegex None [99]%N]] CClosed (Some [MCoref None [49]%N])]);
+              ([[67]]%N, [MCons None [[MId None [97]%N]] COpen None; MCons None [] COpen None; MCons None [] CClosed None]);
+              ([[68]]%N, [MDiff None [[MId None [97]%N]; [MAvm None []]]; MDiff None []]) ].
+
+Definition ex_events : list tevent :=
+  [ VLineC [32;99]%N;
+    VDef [116]%N [MId None [115]%N; ex_term] (Some [100;111;99]%N);
+    VAdd [116]%N [] (Some [100]%N);
+    VBegin ENV_INSTANCE (Some [114]%N);
+    VLex [114]%N [115;117;102;102;105;120]%N [([33;115]%N, [33;115;115]%N)] [MId None [108]%N; MAvm None []] None;
+    VMorph true 99%N [97;41;32;98]%N;
+    VEnd ENV_INSTANCE;
+    VInclude [120]%N ].
+
+Example ex_term_wf : wf_term ex_term.
+Proof.
+  unfold ex_term.
+  repeat first
+    [ apply W_Id | apply W_Str | apply W_Regex | apply W_Coref | apply W_Avm | apply W_Cons | apply W_ConsDot
+    | apply W_Diff | apply Forall_nil | apply Forall_cons | split | discriminate | reflexivity
+    | (intro; discriminate) ].
+Qed.
+
+Example ex_events_wf : Forall wf_event ex_events /\ env_run ex_events [] = Some [].
+Proof.
+  split; [|reflexivity].
+  repeat (apply Forall_cons; [|]); try apply Forall_nil; cbn [wf_event]; try exact I.
+  - split; [discriminate|]. split; [|reflexivity].
+    repeat (apply Forall_cons; [|]); try apply Forall_nil; [apply W_Id | exact ex_term_wf].
+  - split; [apply Forall_nil | intros _; discriminate].
+  - right. split; [reflexivity | eexists; reflexivity].
+  - split.
+    + apply Forall_cons; [|apply Forall_nil]. split; [discriminate|]. split.
+      * repeat (apply Forall_cons; [reflexivity|]). apply Forall_nil.
+      * eexists; eexists; split; reflexivity.
+    + split; [discriminate|]. repeat (apply Forall_cons; [|]); try apply Forall_nil; [apply W_Id | apply W_Avm; apply Forall_nil].
+  - split; [discriminate|]. split; [discriminate|].
+    repeat (apply Forall_cons; [first [left; reflexivity | right; reflexivity]|]). apply Forall_nil.
+Qed.
+
+Example ex_events_roundtrip :
+  p_events (eneed ex_events) (flat_map fmt_event ex_events) [] = Some ex_events /\
+  length (flat_map fmt_event ex_events) = 77.
+Proof. split; vm_compute; reflexivity. Qed.
+
+Lemma ex_all :
+  wf_term ex_term /\ (Forall wf_event ex_events /\ env_run ex_events [] = Some []) /\
+  (p_events (eneed ex_events) (flat_map fmt_event ex_events) [] = Some ex_events /\
+   length (flat_map fmt_event ex_events) = 77).
+Proof. split; [exact ex_term_wf|]. split; [exact ex_events_wf | exact ex_events_roundtrip]. Qed.
